@@ -63,6 +63,9 @@ Checks(ev) ==
                <<"product", \A k \in 1..Len(ev.out.results) : V12(ev.out.results[k]) = prod /\ C12(ev.out.results[k])>>,
                <<"cursors", \A k \in 1..Len(ev.out.cursors) : \A m \in 1..Len(prepIdx) :
                               ev.out.cursors[k][m] = (IF skipped(prepIdx[m]) THEN 0 ELSE NumCoeffs)>> >>
+    \* n records of one pair with identity operands at some positions: the product is e(P, Q)^(n - #identity positions), whatever n is
+    [] o = "pair.long" ->
+         << <<"product", V12(ev.out.r) = F12Exp(RefPairing(Aff1(ev.p), Aff2(ev.q)), FromNat(ev.n - Len(ev.idpos)))>>, <<"canon", C12(ev.out.r)>> >>
     [] o = "gt.const" ->
          << <<"gt-generator", V12(ev.out.gen) = GTGen>>, <<"gt-one", V12(ev.out.one) = F12!EOne>>,
             <<"g1-generator", Aff1(ev.out.g1) = G1Gen>>, <<"g2-generator", Aff2(ev.out.g2) = G2Gen>>, <<"order", Norm(ev.out.order) = RMod>> >>
